@@ -43,7 +43,7 @@ MANIFEST = {
 PROP_FILE = "props/C16.v"
 MODEL_TARGETS = ["theories/C16Model.vo"]
 THEOREMS = ["C16_forward_matching", "C16_default", "C16_everything", "C16_single_disabled", "C16_requested_is_sel",
-            "C16_torch_minimal", "C16_any_profile"]
+            "C16_torch_minimal", "C16_any_profile", "C16_shared_contexts_separated"]
 ALLOWED_AXIOMS = []
 TRUSTED = [
     "translator tools/translate_registration.py: Python ast walk of register_processing_functions; callback names are "
